@@ -271,7 +271,21 @@ def job(args):
         ci = sm.cls('BoundaryFace')
         units.add('boundary.BoundaryFace.__init__')
         arr = lambda: Box(const_arr((Rat.const(3),), ONE))
-        for nm, a3 in (('floats', [Rat.const(1), Rat.const(0), Rat.const(0)]), ('list', [[Rat.const(1)], arr(), arr()]), ('None', [arr(), None, arr()])):
+        from ..interp import AForeign, NUMPY_SCALAR_ATTRS, MEMORYVIEW_ATTRS
+        npscalar = lambda: AForeign('float64', NUMPY_SCALAR_ATTRS)
+        sparse = lambda: w.call('source', 'linearSourceTerm', w.cell_variable('beta'))
+        probes = [('floats', [Rat.const(1), Rat.const(0), Rat.const(0)]), ('list', [[Rat.const(1)], arr(), arr()]), ('None', [arr(), None, arr()]),
+                  ('tuple', [arr(), arr(), (Rat.const(1),)]), ('str', ['1.0', arr(), arr()]), ('dict', [arr(), {}, arr()]),
+                  ('CellVariable object', [arr(), arr(), w.cell_variable('cv')]), ('mesh object', [w.mesh, arr(), arr()])]
+        # objects that are not arrays but carry array-like attributes (shape, ndim, dtype, size): numpy scalars (what arr[i] and
+        # arr.sum() return), sparse matrices, memoryviews - in each coefficient position, and in all three
+        for k in range(3):
+            for nm, mk in (('numpy scalar', npscalar), ('sparse matrix', sparse), ('memoryview', lambda: AForeign('memoryview', MEMORYVIEW_ATTRS))):
+                a3 = [arr(), arr(), arr()]
+                a3[k] = mk()
+                probes.append((f"{nm} as {'abc'[k]}", a3))
+        probes.append(('numpy scalars (all three)', [npscalar(), npscalar(), npscalar()]))
+        for nm, a3 in probes:
             try:
                 w.interp.instantiate('BoundaryFace', a3)
                 ob('L6', 'boundary.BoundaryFace.__init__', False, f"{nm} coefficients accepted", ci.loc())
